@@ -90,3 +90,11 @@ Theorem another_order_gives_another_record :
   i_log (run_iteration stats_after_removal (mkin [] [1%N] false) (init_state 3)) <>
   i_log (run_iteration documented_order (mkin [] [1%N] false) (init_state 3)).
 Proof. exact order_matters. Qed.
+
+(* A FACT READ FROM THE SOURCE ON EVERY RUN (Facts_gen.v, harness/translate_facts.py): every write of a face-type index in the cell
+   types is the constant 0 or goes through the clamp `min(id, number of face types - 1)` of set_face_type — the premise under which
+   a face-type index always designates an entry of the (non-empty) table of its cell type. *)
+From SC Require Facts_gen.
+Theorem face_type_writes_are_zero_or_clamped : Facts_gen.facts_translation_ok = true /\ Facts_gen.raw_face_type_writes = nil.
+Proof. split; reflexivity. Qed.
+Print Assumptions face_type_writes_are_zero_or_clamped.
